@@ -17,6 +17,7 @@ RULE = (
     "bits) - in particular it must not be empty; when they are satisfiable the core must be empty.  Calls that pass "
     "extra constraints are made for coverage but only judged under the same condition on the solver's own "
     "constraints.  Non-trivial: the solver's constraints are unsatisfiable; distinct by (class, add order) hash."
+    " Session 4: another solver using the backend between repeated core calls; shards with a conversion cache of six entries."
 )
 ASSUMPTIONS = ["a core element re-abstracted from Z3 after cache eviction would only match structurally; the LRU cache (10000) is never exceeded here"]
 
